@@ -135,7 +135,7 @@ def main():
                      "kind_free_text": "own symbolic executor (z3 Python API, python3-vt) running the real /repo source under numpy/numba/scipy/sklearn environment models; IEEE-754 lemmas via z3/cvc5 FloatingPoint"}],
         "checks": checks,
         "not_applicable": na,
-        "notes": "All checks: ./check <id> --tier quick|thorough; exit 0 held, 1 VIOLATION (replayed on the real build), 2 harness error / inconclusive.",
+        "notes": "All checks: ./check <id> --tier quick|thorough; exit 0 held, 1 VIOLATION (replayed on the real build), 2 harness error / inconclusive. The thorough tier uses the larger bounds of each harness; its case grid is capped at SYMX_THOROUGH_CAP (default 700) worker jobs by a deterministic stride over the case list, recorded in the evidence (case_grid); SYMX_THOROUGH_CAP=0 runs the full grid.",
     }
     with open(os.path.join(V, "MANIFEST.json"), "w") as f:
         json.dump(m, f, indent=1)
